@@ -12,12 +12,12 @@ T == Traces[tid]
 TraceInit == /\ tid \in 1..Len(Traces)
              /\ cat = T.init /\ init0 = T.init
              /\ region = FALSE /\ doc = NoDoc /\ file = NoFile /\ last = None
-             /\ preds = {} /\ docPreds = {} /\ filePreds = {} /\ hist = <<>>
+             /\ preds = {} /\ docPreds = {} /\ filePreds = {} /\ hist = <<>> /\ fscale = 2
              /\ l = 1
 Step == /\ l <= Len(T.steps)
         /\ LET r == T.steps[l] IN
              /\ Do(r.op)
-             /\ cat' = r.cat /\ region' = r.region
+             /\ cat' = r.cat /\ region' = r.region /\ fscale' = r.fscale
              /\ last'.k = r.last.k /\ last'.v = r.last.v
         /\ l' = l + 1 /\ UNCHANGED tid
 TraceSpec == TraceInit /\ [][Step]_<<vars, tid, l>>
